@@ -873,10 +873,11 @@ impl TryFrom<&BytesMut> for Parse {
         let len = cursor.get_i32();
         let name = cursor.read_string()?;
         let query = read_cstring_bytes(&mut cursor)?;
+        // The counts of the protocol are 16 bits wide and unsigned: PostgreSQL takes up to 65535 parameters.
         let num_params = cursor.get_i16();
         let mut param_types = Vec::new();
 
-        for _ in 0..num_params {
+        for _ in 0..num_params as u16 {
             param_types.push(cursor.get_i32());
         }
 
@@ -997,14 +998,14 @@ impl TryFrom<&BytesMut> for Bind {
         let num_param_format_codes = cursor.get_i16();
         let mut param_format_codes = Vec::new();
 
-        for _ in 0..num_param_format_codes {
+        for _ in 0..num_param_format_codes as u16 {
             param_format_codes.push(cursor.get_i16());
         }
 
         let num_param_values = cursor.get_i16();
         let mut param_values = Vec::new();
 
-        for _ in 0..num_param_values {
+        for _ in 0..num_param_values as u16 {
             let param_len = cursor.get_i32();
             // There is special occasion when the parameter is NULL
             // In that case, param length is defined as -1
@@ -1026,7 +1027,7 @@ impl TryFrom<&BytesMut> for Bind {
         let num_result_column_format_codes = cursor.get_i16();
         let mut result_columns_format_codes = Vec::new();
 
-        for _ in 0..num_result_column_format_codes {
+        for _ in 0..num_result_column_format_codes as u16 {
             result_columns_format_codes.push(cursor.get_i16());
         }
 
@@ -1061,14 +1062,14 @@ impl TryFrom<Bind> for BytesMut {
             + portal.len()
             + prepared_statement.len()
             + 2 // num_param_format_codes
-            + 2 * bind.num_param_format_codes as usize // num_param_format_codes
+            + 2 * bind.num_param_format_codes as u16 as usize // num_param_format_codes
             + 2; // num_param_values
 
         for (param_len, _) in &bind.param_values {
             len += 4 + *param_len as usize;
         }
         len += 2; // num_result_column_format_codes
-        len += 2 * bind.num_result_column_format_codes as usize;
+        len += 2 * bind.num_result_column_format_codes as u16 as usize;
 
         bytes.put_u8(bind.code as u8);
         bytes.put_i32(len as i32);
